@@ -1,7 +1,7 @@
 CONSTANTS
-  CommitOrder = "publish_first"
+  CommitOrder = "storage_first"
   NanoMax = 3
-  Fine = FALSE
+  Fine = TRUE
 INIT Init
 NEXT Next
 VIEW View
